@@ -242,6 +242,20 @@ void run_step(Scenario *Sp) {
                     vh::viol("history/task-lost", vh::fmt("%d accepted tasks are neither waiting nor running and never ran", pending));
                 else if (pending > 0 && !have && S.inflight.load() == 0)
                     vh::viol("progress/tasks-stranded-worker-idle", vh::fmt("%d accepted tasks never started and no body is running", pending));
+                else if (pending > 0 && have && doing == 0 && undo > 0 && S.inflight.load() == 0) {
+                    // tasks are waiting, the pool itself says nothing is being executed and no body is running, and
+                    // that has not changed for the whole bounded wait (>= 12 s, nothing was submitted meanwhile); the
+                    // worker count alone cannot tell live workers from ones that have left (e.g. a stale stop flag).
+                    // Look once more a little later so that a worker caught between wake-up and pick-up is not blamed.
+                    vc::sleep_us(200000);
+                    size_t th2 = 0, idle2 = 0, doing2 = 0, undo2 = 0;
+                    S.pool->snapshot(th2, idle2, doing2, undo2);
+                    int pending2 = 0; for (auto &t : S.tasks) if (t->accepted && !t->cancel_ok && t->round == S.round && t->start_count.load() == 0) ++pending2;
+                    if (pending2 == pending && doing2 == 0 && S.inflight.load() == 0)
+                        vh::viol("progress/tasks-waiting-while-nothing-runs", vh::fmt("%d accepted tasks never started although nothing has been executing for the whole bounded wait; snapshot: threads=%zu idle=%zu doing=0 waiting=%zu",
+                                                                                  pending, th2, idle2, undo2));
+                    else vh::counter("quiesce_inconclusive");
+                }
                 else vh::counter("quiesce_inconclusive");
                 S.quiesce_failed = true;
             }
